@@ -106,37 +106,87 @@ theorem C18_roundtrip_uncompressed (c t : Nat) (r p q : Bytes) (hv : validate c 
        simpa using this)
     | exact ⟨hreg.symm, hspec⟩
 
-/-! ### the compressed round trip
+/-! ### components, and the compressed round trip
 
   `Writer::add_rr` (src/message/writer.rs) serialises RDATA component by component
   (`Rdata::components`): a compressible name as labels possibly ending in a pointer to an earlier
   occurrence, an uncompressible name and any other octets verbatim.  What the reader needs from the
-  writer is captured by `Written`: in the finished message, at the position of each component,
-  a name *decodes* (RFC 1035 §4.1.4, within the message up to the end of the RDATA) to the
-  component's name, and other components are there verbatim.  Establishing `Written` for the
-  model of the writer is C12 / C13 (another module); *given* it, the read returns the RDATA. -/
+  writer is captured by `QV.Rdata.Written` (QV/Proofs/RdataRead.lean): in the finished message, at
+  the position of each component, a name *decodes* (RFC 1035 §4.1.4, within the message up to the
+  end of the RDATA) to the component's name, and other components are there verbatim.
+  Establishing `Written` for the model of the writer is C12 / C13 (another module); *given* it,
+  the read returns the RDATA — proved here. -/
 
-/-- the message holds the components `comps` from `pos` to `e` -/
-inductive Written (buf : Bytes) : List Comp → Nat → Nat → Prop
-  | nil {pos} : Written buf [] pos pos
-  | cname {w n k rest pos e} (hd : DecodesName buf pos w n k) (tl : Written buf rest (pos + k) e) :
-      Written buf (.compressibleName w :: rest) pos e
-  | uname {w n rest pos e} (hd : DecodesName buf pos w n w.length) (tl : Written buf rest (pos + w.length) e) :
-      Written buf (.uncompressibleName w :: rest) pos e
-  | other {o rest pos e} (hin : pos + o.length ≤ buf.size) (ho : (buf.extract pos (pos + o.length)).toList = o)
-      (tl : Written buf rest (pos + o.length) e) : Written buf (.other o :: rest) pos e
+/-- **Components of valid RDATA** (what the writer is handed): for a name-bearing format the
+    fields of the RDATA in order — names of the RFC 1035 types compressible, the name of the
+    class-specific CH A and of SRV uncompressible (RFC 3597 §4), fixed fields opaque; for every
+    other format the whole RDATA as one opaque component (none if empty).  Never a panic. -/
+theorem C18_components_valid (c t : Nat) (r : Bytes) (hv : validate c t r = .ok ()) :
+    (∀ l, layoutOf (fmtOf c t) = some l →
+        ∃ fs, Splits l r.toList fs ∧ components c t r = .ok (tagComps (fmtOf c t) fs)) ∧
+    (layoutOf (fmtOf c t) = none →
+        components c t r = .ok (if r.size = 0 then [] else [.other r.toList])) := by
+  have hspec := (C18_validate_iff c t r).mp hv
+  unfold RdataSpec at hspec
+  rw [components_eq]
+  constructor
+  · intro l hl
+    have : ∃ fs, Splits l r.toList fs := by
+      cases hf : fmtOf c t <;> rw [hf] at hspec hl <;> simp only [layoutOf, Option.some.injEq, reduceCtorEq] at hl <;>
+        subst hl <;> exact hspec
+    obtain ⟨fs, hfs⟩ := this
+    exact ⟨fs, hfs, componentsFmt_valid _ l hl r fs hfs⟩
+  · intro hl
+    have : compTypesFmt (fmtOf c t) = [] := by
+      cases hf : fmtOf c t <;> rw [hf] at hl <;> simp [layoutOf] at hl <;> rfl
+    rw [this]; exact componentsAux_nil r
 
-/-- **Full statement of the write/read round trip** (compression enabled, case preserved): for
-    valid RDATA whose components the writer has put into the message at `cursor .. e` — names in
-    any encoding that decodes to them — reading `e - cursor` octets at `cursor` returns the RDATA.
-    It is a statement about reader + `components`; that the writer model produces a `Written`
-    region is the subject of C12 / C13. -/
+/-- **Full statement of the write/read round trip** (any compression mode that preserves case):
+    for valid RDATA whose components the writer has put into the message at `cursor .. e` — names
+    in any encoding that decodes to them, within the 16-bit RDLENGTH — reading `e - cursor` octets
+    at `cursor` returns exactly the RDATA. -/
 def C18_write_read_full : Prop :=
   ∀ (c t : Nat) (r : Bytes) (comps : List Comp) (msg : Bytes) (cursor e : Nat),
-    validate c t r = .ok () → r.size ≤ 65535 → e ≤ USIZE_MAX →
-    components c t r = .ok comps → cursor ≤ e → e ≤ msg.size →
+    validate c t r = .ok () → components c t r = .ok comps →
+    cursor ≤ e → e ≤ msg.size → e ≤ USIZE_MAX → e - cursor ≤ 65535 →
     Written (msg.extract 0 e) comps cursor e →
     read c t msg cursor (e - cursor) = .ok r
+
+/-- … proved for the reader and `components`; what remains for the end-to-end claim is that the
+    writer model establishes `Written` (C12 / C13). -/
+theorem C18_write_read : C18_write_read_full := by
+  intro c t r comps msg cursor e hv hcomp hce hem heu hrd hW
+  have hce' : cursor + (e - cursor) = e := by omega
+  rw [C18_read_iff_spec c t msg cursor (e - cursor) hrd (by omega)]
+  unfold SpecRead
+  rw [hce']
+  refine ⟨hem, ?_⟩
+  obtain ⟨h1, h2⟩ := C18_components_valid c t r hv
+  cases hl : layoutOf (fmtOf c t) with
+  | some l =>
+    obtain ⟨fs, hfs, hc⟩ := h1 l hl
+    rw [hc] at hcomp
+    cases hcomp
+    have := written_expands (tagged_tagComps _ l hl _ fs hfs) hW
+    rw [splits_flatten hfs] at this
+    exact this
+  | none =>
+    have hc := h2 hl
+    rw [hc] at hcomp
+    cases hcomp
+    have hspec := (C18_validate_iff c t r).mp hv
+    refine ⟨?_, hspec⟩
+    by_cases h0 : r.size = 0
+    · simp only [h0, if_true] at hW
+      cases hW
+      have : r.toList = [] := by apply List.eq_nil_of_length_eq_zero; simpa using h0
+      rw [this]; simp
+    · simp only [h0, if_false] at hW
+      cases hW with
+      | other hin ho tl =>
+        cases tl
+        rw [extract_extract_prefix msg _ _ _ (by omega) hem] at ho
+        exact ho.symm
 
 /-! ### non-vacuity -/
 
@@ -190,5 +240,30 @@ example : read 1 15 cmsg 3 4 = .ok #[0, 10, 1, 97, 0] := by
   rw [e]
   simp [expand?, cmsg_parse]
   decide
+
+/-- the hypotheses of `C18_write_read` are satisfiable by a genuinely compressed region: the
+    components of MX `10 a.` written as `00 0a c0 00` after an earlier `a.` -/
+example : read 1 15 cmsg 3 (7 - 3) = .ok #[0, 10, 1, 97, 0] := by
+  have hv : validate 1 15 #[0, 10, 1, 97, 0] = .ok () :=
+    (C18_validate_iff 1 15 _).mpr (by
+      unfold RdataSpec
+      have hf : fmtOf 1 15 = .mx := by decide
+      rw [hf]
+      show ∃ fs, Splits [.fixed 2, .name] (#[0, 10, 1, 97, 0] : Bytes).toList fs
+      rw [← isSome_split_iff]; decide +kernel)
+  have hf : fmtOf 1 15 = .mx := by decide
+  obtain ⟨fs, hfs, hc⟩ := (C18_components_valid 1 15 _ hv).1 [.fixed 2, .name] (by rw [hf]; rfl)
+  have hfs' : fs = [[0, 10], [1, 97, 0]] := by
+    have := (split?_iff _ _ _).mpr hfs
+    have e : split? [.fixed 2, .name] (#[0, 10, 1, 97, 0] : Bytes).toList = some [[0, 10], [1, 97, 0]] := by
+      decide +kernel
+    rw [e] at this; cases this; rfl
+  subst hfs'
+  rw [hf] at hc
+  have e7 : cmsg.extract 0 7 = cmsg := by decide
+  refine C18_write_read 1 15 _ _ cmsg 3 7 hv hc (by omega) (by decide) (by decide) (by omega) ?_
+  rw [e7]
+  exact Written.other (by decide) (by decide)
+    (Written.cname ((QV.C14.C14_parse_ok_iff cmsg 5 _).mp cmsg_parse) Written.nil)
 
 end QV.C18
